@@ -506,11 +506,33 @@ impl C16 {
         for (p, _) in &coefs {
             gnum = num::integer::gcd(gnum, *p);
         }
-        let expected = qfrac(l, gnum.abs());
+        let mut expected = qfrac(l, gnum.abs());
         let pool = id_pool(rng, 3, false);
         // spread the coefficients over a function of some variant; each coefficient on its own key
         let variant = rng.below(3);
-        let vals: Vec<f64> = coefs.iter().map(|(p, qd)| *p as f64 / *qd as f64).collect();
+        let mut vals: Vec<f64> = coefs.iter().map(|(p, qd)| *p as f64 / *qd as f64).collect();
+        // explicitly stored zero coefficients (what cancellation leaves behind) do not change the
+        // content; a function whose stored coefficients are all zero is the zero function: factor 1
+        match rng.below(12) {
+            0 => {
+                vals = vec![0.0; 1 + rng.usize_below(3)];
+                if rng.bool() {
+                    vals[0] = -0.0;
+                }
+                coefs.clear();
+                expected = qfrac(1, 1);
+                mon.facet("content_factor:all-stored-coefficients-zero");
+            }
+            1 | 2 => {
+                let at = rng.usize_below(vals.len() + 1);
+                vals.insert(at, 0.0);
+                if rng.bool() {
+                    vals.push(0.0);
+                }
+                mon.facet("content_factor:some-stored-coefficients-zero");
+            }
+            _ => {}
+        }
         let f = match variant {
             0 => {
                 let mut terms = vec![];
@@ -566,7 +588,7 @@ impl Property for C16 {
         }
     }
     fn rule(&self) -> &'static str {
-        "the first G cases enumerate the grid exhaustively: all 43 valid intervals with endpoints in {-inf,-3,-2,-1/2,0,1/2,2,3,+inf}; every ordered pair under + and * (binary and compound-assignment forms), every interval plus a scalar (bound+f64, f64+bound, +=), every interval under pow(0..8), under scaling by 10 non-zero scalars of both signs (0.5..2^20, 2^-20) from both sides and as *=, and as_integer_bound on intervals that contain an integer (fractional ends, +-1e-7 perturbations, half-infinite); each result must contain op(x,y) for all sample points (finite ends, interior, zero, +-2^20 on unbounded sides) with zero tolerance, without panicking. One remaining case in eight draws an interval with endpoints of extreme magnitude (m*2^e up to 2^212, +-2^63, 2^64, 1e19..1e300, infinite, degenerate) and either rounds it to integer endpoints (integers at both ends, 1 and 4096 inside, and the middle must be kept) or scales it from both sides by a non-zero dyadic number between 2^-300 and 2^72 (exact products; ends, zero and a far point on unbounded sides must be enclosed). The other cases alternate: evaluate_bound of a hostile function message of degree <= 4 over a box drawn from the grid (D) or random reals (R), some ids without bound, checked at 40 corner/face/interior points against the exact polynomial (zero tolerance in D, 2^-45 relative to the magnitude sum in R); and content_factor on functions whose coefficients are p/q (q<=60, lcm<=1e7) against lcm(q)/gcd(p) within 1 ulp. Non-trivial = non-constant function / >= 2 coefficients; distinct = fingerprint of (function, box)."
+        "the first G cases enumerate the grid exhaustively: all 43 valid intervals with endpoints in {-inf,-3,-2,-1/2,0,1/2,2,3,+inf}; every ordered pair under + and * (binary and compound-assignment forms), every interval plus a scalar (bound+f64, f64+bound, +=), every interval under pow(0..8), under scaling by 10 non-zero scalars of both signs (0.5..2^20, 2^-20) from both sides and as *=, and as_integer_bound on intervals that contain an integer (fractional ends, +-1e-7 perturbations, half-infinite); each result must contain op(x,y) for all sample points (finite ends, interior, zero, +-2^20 on unbounded sides) with zero tolerance, without panicking. One remaining case in eight draws an interval with endpoints of extreme magnitude (m*2^e up to 2^212, +-2^63, 2^64, 1e19..1e300, infinite, degenerate) and either rounds it to integer endpoints (integers at both ends, 1 and 4096 inside, and the middle must be kept) or scales it from both sides by a non-zero dyadic number between 2^-300 and 2^72 (exact products; ends, zero and a far point on unbounded sides must be enclosed). The other cases alternate: evaluate_bound of a hostile function message of degree <= 4 over a box drawn from the grid (D) or random reals (R), some ids without bound, checked at 40 corner/face/interior points against the exact polynomial (zero tolerance in D, 2^-45 relative to the magnitude sum in R); and content_factor on functions whose coefficients are p/q (q<=60, lcm<=1e7), one in six with explicitly stored zero coefficients among them and one in twelve with nothing but stored zeros (the zero function: factor 1), against lcm(q)/gcd(p) within 1 ulp. Non-trivial = non-constant function / >= 2 coefficients; distinct = fingerprint of (function, box)."
     }
     fn assumptions(&self) -> Vec<&'static str> {
         vec!["scaling by 0 and magnitudes that overflow f64 are outside the statement", "as_integer_bound is only called on intervals that contain an integer"]
